@@ -39,10 +39,10 @@ PANIC_TABLE = {
         max=1, scope="derive", finding="F3", guard=[r"discr\(self\.data\)=Enum"],
         why="element-level derive on an enum body without variants reaches codegen (no variant => no error)"),
     ("darling_core::codegen::variant_data::FieldsGen::<'a>::declarations", "panic"): dict(
-        max=1, scope="derive", who="fieldsgen-struct-only", guard=[r"discr\(self\.fields\.style\)=\('not-in', \('Struct',\)\)"],
+        max=1, scope="derive", who="fieldsgen-struct-only", guard=[("ne", r"^discr\(self\.fields\.style\)$", "Struct")],
         why="only called from DataMatchArm::to_tokens under is_struct()=true (rule C06.who.fieldsgen)"),
     ("darling_core::codegen::variant_data::FieldsGen::<'a>::require_fields", "panic"): dict(
-        max=1, scope="derive", who="fieldsgen-struct-only", guard=[r"discr\(self\.fields\.style\)=\('not-in', \('Struct',\)\)"],
+        max=1, scope="derive", who="fieldsgen-struct-only", guard=[("ne", r"^discr\(self\.fields\.style\)$", "Struct")],
         why="only called from DataMatchArm::to_tokens under is_struct()=true (rule C06.who.fieldsgen)"),
     ("darling_core::error::kind::ErrorKind::description", "panic"): dict(
         max=1, scope="runtime", who="nonexhaustive-never-built", guard=[r"discr\(self\)=__NonExhaustive"], why="variant __NonExhaustive is never constructed"),
@@ -96,12 +96,12 @@ PANIC_TABLE = {
     ("<syn::path::Path as darling_core::usage::type_params::UsesTypeParams>::uses_type_params", "index"): dict(
         max=1, scope="both", guard=[r"is_empty\(self\.segments\)=False"], why="segments[0] under !segments.is_empty()"),
     ("<darling_core::util::flag::Flag as darling_core::from_meta::FromMeta>::from_meta", "result-unwrap"): dict(
-        max=1, scope="both", who="unit-overrides-only-from-word", guard=[r"discr\(a1\)=\('not-in', \('Path',\)\)"],
+        max=1, scope="both", who="unit-overrides-only-from-word", guard=[("ne", r"^discr\(a1\)$", "Path")],
         why="<()>::from_meta(non-path) is an Err because () overrides only from_word"),
     ("darling_core::util::ident_string::IdentString::map", "ident-new"): dict(
         max=1, scope="runtime", who="no-caller", why="documented `# Panics` API; not reachable from derives or generated code"),
     ("<darling_core::util::shape::ShapeSet as core::fmt::Display>::fmt", "panic"): dict(
-        max=1, scope="runtime", who="to-vec-three", guard=[r"len\(.*to_vec\(self\)\)=\('not-in', \(0, 1, 2, 3\)\)"], why="to_vec has at most four loop-free pushes... see C18"),
+        max=1, scope="runtime", who="to-vec-three", guard=[("ne", r"^len\(.*to_vec\(self\)\)$", n_) for n_ in (0, 1, 2, 3)], why="to_vec has at most four loop-free pushes... see C18"),
     ("<darling_core::util::shape::ShapeSet as core::fmt::Display>::fmt", "index"): dict(
         max=6, scope="runtime", who="index-below-len", why="shapes[i] in the arm `len == n` with i < n (rule C07.index-below-len)"),
 }
